@@ -216,8 +216,8 @@ def apply(x, tok):
         s.empty()
     elif op == 'mix':                   # mix_from([self, other]) without energy balance
         s.mix_from([s, x.other()], energy_balance=False)
-    elif op == 'mixH':                  # with energy balance (temperature from A-root)
-        s.mix_from([s, x.other()], energy_balance=True)
+    elif op == 'mixHo':                 # single inlet with energy balance (copy_like branch)
+        s.mix_from([x.other()], energy_balance=True)
     elif op == 'mixo':
         s.mix_from([x.other()], energy_balance=False)
     elif op == 'sep':
@@ -323,7 +323,10 @@ def _canary(x, prop='H', hot=False):
     w = x.w; s = x.s
     val = getattr(s, prop)
     ref = getattr(fresh_of(s), prop)
-    w.canary(f'canary: {prop} = value on a fresh stream + 1', w.eq(val, ref + 1.))
+    if ref is None:      # empty stream: per-mole properties are undefined
+        w.canary(f'canary: {prop} = value on a fresh stream + 1', w.eq(val, 1.))
+    else:
+        w.canary(f'canary: {prop} = value on a fresh stream + 1', w.eq(val, ref + 1.))
     if hot:
         f = fresh_of(s)
         f.T = s.T + 1.
@@ -402,7 +405,7 @@ MUTATORS = {
     'imol[ID]=x': ([], ['fl'], 'lm'), 'imol[ID]=0': ([], ['fl:zero'], 'lm'), 'imol[Water]=x': ([], ['flw'], 'lm'),
     'mol=array': ([], ['mol'], 'lm'), 'set_flow': ([], ['setflow'], 'lm'),
     'scale': ([], ['sc'], 'lm'), 'imul': ([], ['imul'], 'lm'), 'F_mol=': ([], ['Fmol'], 'lm'), 'empty': ([], ['empty'], 'lm'),
-    'mix_from(self+other)': ([], ['mix'], 'lm'), 'mix_from energy balance': ([], ['mixH'], 'lm'),
+    'mix_from(self+other)': ([], ['mix'], 'l'), 'mix_from(other) energy balance': ([], ['mixHo'], 'lm'),
     'mix_from(other)': ([], ['mixo'], 'lm'), 'separate_out': ([], ['sep'], 'l'),
     'copy_like': ([], ['copylike'], 'lm'), 'copy_flow': ([], ['copyflow'], 'lm'),
     'copy_thermal_condition': ([], ['copyTP'], 'lm'), 'copy_phase': ([], ['copyphase'], 'l'),
@@ -485,45 +488,57 @@ SHARERS = {
 }
 
 
-def _shared_sequences(share, depth, props):
+_READS = ('r', 'pr', 'or', 'fpr', 'vr')
+
+
+def _shared_sequences(share, depth, props, own_muts=('T', 'fl'), other_muts=None):
     ctor, rd, muts, _ = SHARERS[share]
     alphabet = []
     for p in props:
         alphabet += [f'r:{p}', f'{rd}:{p}']
-    alphabet += ['T', 'fl'] + muts
+    alphabet += list(own_muts) + list(muts if other_muts is None else other_muts)
     seqs = []
     for d in range(2, depth + 1):
         for seq in itertools.product(alphabet, repeat=d):
             if any(a == b for a, b in zip(seq, seq[1:])): continue
-            nreads = sum(1 for t in seq if t.split(':')[0] in ('r', 'pr', 'or', 'fpr', 'vr'))
-            nmut = len(seq) - nreads
-            if nreads < 1 or nmut < 1: continue
-            # a history ending in a read adds nothing over the final reads
-            if seq[-1].split(':')[0] in ('r', 'pr', 'or', 'fpr', 'vr'): continue
-            # mutations before the first read cannot matter
-            if seq[0].split(':')[0] not in ('r', 'pr', 'or', 'fpr', 'vr'): continue
+            isread = [t.split(':')[0] in _READS for t in seq]
+            if not any(isread) or all(isread): continue
+            if isread[-1]: continue          # a history ending in a read adds nothing over the final reads
+            if not isread[0]: continue       # mutations before the first read cannot matter
             seqs.append(list(seq))
     return seqs
 
 
+def _aba(q):
+    """read / mutate / read through the other handle / mutate: the shape in which a shared memo goes stale."""
+    isread = [t.split(':')[0] in _READS for t in q]
+    return (len(q) == 4 and isread == [True, False, True, False] and q[0].startswith('r:') != q[2].startswith('r:')
+            and q[1] == q[3] and q[1] in ('T', 'fl'))
+
+
 def shared_configs(tier):
     out = []
-    depth = 4 if tier == 'quick' else 5
     for kind in ['l', 'gl']:
         tag = 'm' if len(kind) > 1 else 'l'
         for share, (ctor, rd, muts, where) in SHARERS.items():
             if tag not in where: continue
-            props = ['H'] if tier == 'quick' else ['H', 'sigma']
-            seqs = _shared_sequences(share, depth, props)
             if tier == 'quick':
-                # depth 4 only in the shape read / mutate / read through the other / mutate
-                seqs = [q for q in seqs if len(q) <= 3 or
-                        (q[0].startswith('r:') != q[2].startswith('r:') and ':' in q[2] and q[2].split(':')[0] in ('r', 'pr', 'or', 'fpr', 'vr')
-                         and q[1] in ('T', 'fl') and q[3] in ('T', 'fl'))]
+                props = ['H']
+                if kind == 'l':
+                    seqs = _shared_sequences(share, 4, props, other_muts=muts[:1])
+                    seqs = [q for q in seqs if len(q) <= 3 or _aba(q)]
+                else:
+                    if share in ('link_with', 'flow_proxy'): continue
+                    seqs = _shared_sequences(share, 4, props, own_muts=('T',), other_muts=muts[:1])
+                    seqs = [q for q in seqs if len(q) <= 2 or _aba(q)]
+            else:
+                props = ['H', 'sigma'] if kind == 'l' else ['H']
+                seqs = _shared_sequences(share, 4, props)
+                seqs += [q for q in _shared_sequences(share, 5, ['H']) if len(q) == 5]
             for when in (['before', 'after-first-read'] if ctor else ['before']):
                 for q in seqs:
+                    if when != 'before' and (not q[0].startswith('r:') or (tier == 'quick' and len(q) < 3)): continue
                     ops = ([ctor] + q) if when == 'before' else ([q[0], ctor] + q[1:])
-                    if when != 'before' and not q[0].startswith('r:'): continue
                     out.append({'name': f'kind={kind};share={share};ctor={when};ops={",".join(q)}', 'kind': kind, 'ops': [o for o in ops if o],
                                 'final': props[0]})
     return out
